@@ -479,3 +479,41 @@ fn c00_value_json_big_vs_int() {
   core::mem::forget(cddl);
 }
 }
+
+// ---------------------------------------------------------------- .bits on byte strings: totality (C05)
+
+macro_rules! bits_bytes_total {
+  ($name:ident, |$d:ident| $doc:block, $len:expr) => {
+    with_validator_stubs! {
+    /// CBOR `bstr .bits N` at visit_value level on a byte string of fixed length and *every*
+    /// N: usize: the callback returns without panicking (index arithmetic N/8, N%8, shifts),
+    /// and a bit number at or beyond the end of the string is never accepted. Whether the
+    /// crate's reading of `.bits` ("bit N is set") is the RFC's ("only listed bits may be
+    /// set") is **not** asserted here.
+    #[kani::proof]
+    #[kani::unwind(12)]
+    fn $name() {
+      let cddl = CDDL { rules: vec![], comments: None };
+      let $d = ();
+      let doc: Vec<u8> = $doc;
+      let n: usize = kani::any();
+      let lit = Lit::UINT(n);
+      let mut val = CBORValidator::new(&cddl, CV::Bytes(doc), None);
+      cddl::validator::cbor::verif_hooks_state::set_ctrl(&mut val, Some(Op::BITS));
+      let r = <CBORValidator as Visitor<'_, '_, CErr>>::visit_value(&mut val, &lit);
+      let errs = cddl::validator::cbor::verif_hooks_occ::error_count(&val);
+      assert!(r.is_ok());
+      if n / 8 >= $len {
+        assert!(errs > 0);
+      }
+      kani::cover!(n / 8 == $len);
+      kani::cover!(n > u32::MAX as usize);
+      core::mem::forget(r);
+      core::mem::forget(val);
+      core::mem::forget(cddl);
+    }
+    }
+  };
+}
+bits_bytes_total!(c05_cbor_bits_bytes0_total, |_d| { Vec::new() }, 0usize);
+bits_bytes_total!(c05_cbor_bits_bytes1_total, |_d| { let c: u8 = kani::any(); let mut v = Vec::new(); v.push(c); v }, 1usize);
